@@ -401,6 +401,29 @@ func genC10(t *rapid.T) c10Case {
 			continue
 		}
 		switch k := rapid.IntRange(0, 9).Draw(t, "seqKind"); {
+		case w >= 64 && (k == 2 || k == 3):
+			// the reference with ambiguity tracts that end on, or start right after, a column that is a multiple of a block size
+			// (8 .. 256) - where word-, line- or block-wise scanning changes state; everything between the tracts equals the reference
+			b := []byte(strings.ToUpper(ref))
+			B := rapid.SampledFrom([]int{8, 16, 32, 64, 64, 128, 256}).Draw(t, "tractGrid")
+			for g := B; g <= w; g += B {
+				switch rapid.IntRange(0, 3).Draw(t, "gridTract") {
+				case 0: // a tract ending exactly at column g
+					for j := g - rapid.IntRange(1, B).Draw(t, "tractLen"); j < g; j++ {
+						b[j] = 'N'
+					}
+				case 1: // a tract starting at column g+1
+					for j := g; j < g+rapid.IntRange(1, 5).Draw(t, "tractLen2") && j < w; j++ {
+						b[j] = rapid.SampledFrom([]byte{'N', 'N', '-', 'R'}).Draw(t, "tractSym")
+					}
+				case 2: // both
+					b[g-1] = 'N'
+					if g < w {
+						b[g] = 'N'
+					}
+				}
+			}
+			s = string(b)
 		case k >= 7 || (medium && k >= 3):
 			// identical to the reference (its ambiguity symbols included), or a handful of SNPs away from it
 			b := []byte(strings.ToUpper(ref))
